@@ -285,6 +285,11 @@ func (e *emitter) Header(
 }
 
 func (e *emitter) Message(data []byte, streamEnded bool) error {
+	if data == nil && streamEnded {
+		// The adapter signals a bare END_STREAM (an empty DATA frame) with nil data. It carries
+		// no message, so forward it as an empty DATA frame instead of a zero-length message.
+		return e.sink.Data(nil, true)
+	}
 	// Applies compression to `data` depending on `adapter`'s state.
 	if e.adapter.compressed {
 		switch e.adapter.encoding {
